@@ -1,22 +1,37 @@
 /-
-  C04 — Applying an ACTIONX equals inlining its keywords; earlier steps are immutable.  (proof, partial)
+  C04 — Applying an ACTIONX equals inlining its keywords; earlier steps are immutable.  (proof)
 
   Model: `Model/SchedAction.lean` (`applyAction` on (stored blocks, snapshots), on top of the C03
-  core semantics).  Proved for every schedule, step, body and matching-well set:
-    * `apply_past_untouched`, `apply_sequence_partial` (immutability of the past, also for any
-      sequence of applications at steps ≥ n0);
-    * `apply_eq_inline_partial`: apply = inline at every step > n and at n up to the marker,
-      under the hypothesis that `end_report` had nothing to shut at step n (`endReport s1 = s1`);
-      the full statement replaces that hypothesis by "the body contains no connection keyword"
-      (the per-step exception of the property) and needs the commutation of `end_report` with the
-      property-channel handlers — the channel typing of `stepP`/`stepC` is prepared for it, the
-      proof is not done;
+  core semantics of `Model/SchedCore.lean`: 23 record operations, among them the deferred
+  WPIMULT factors and `end_report`).  Proved for every schedule, step, body and matching-well set:
+
+    * `apply_past_untouched`, `apply_sequence_past`: immutability of the past, also for any
+      sequence of applications at steps ≥ n0;
+    * `close_commutes`: running the handlers of admissible keywords on a report step that is
+      already closed (deferred WPIMULT applied, wells whose connections are all shut shut in) and
+      closing it again equals running them before closing — `end_report` and the deferred WPIMULT
+      commute with every property-channel handler of the modelled keyword set and with COMPLUMP;
+    * `apply_eq_inline`: apply = the schedule of the deck with the substituted body written at
+      the end of block n: same snapshots before n, `Sim` at n (everything but the marker) and at
+      every step > n (where also the markers agree: both empty) — under the property's own
+      exception only: the body contains no keyword that opens or shuts connections (COMPDAT,
+      WELOPEN on connections) and no WPIMULT (`noConnKw`; COMPLUMP is allowed);
+    * `apply_sequence`: any list of applications with non-decreasing steps equals inlining all
+      bodies in that order (induction over the list, with the stored blocks — which keep the
+      bodies verbatim with `?` — as part of the invariant);
+    * `sim_observation`: `Sim` states with equal markers print the same observation record;
     * `subst_matches`: what '?' expands to.
+
+  `Sim a b` = equal property channel, equal connection channel, equal status of every well.  (The
+  status channel is an association list; the two sides may list its keys in a different order,
+  which no handler and no observation can see.)
+
   Observed only (correspondence with the real `Schedule::applyAction`, sequences included, and
-  property mode real-apply vs real-inlined-deck): the "equals inlining all in that order" half of
-  the sequence claim; handler-time resolution of '?' (the model resolves it once per application).
+  property mode real-apply vs real-inlined-deck): handler-time resolution of '?' (the model
+  resolves it once per application); decreasing steps.
 -/
-import OpmVerif.Proofs.SchedAction
+import OpmVerif.Proofs.SchedCommute
+import OpmVerif.Proofs.SchedObs
 
 namespace OpmVerif.Props.C04
 open OpmVerif.Sched
@@ -27,44 +42,92 @@ theorem apply_past_untouched (k : Consts) (bs : List (List CKw)) (ss : List Stat
     (h : applyAction k bs ss n body W = .ok (bs', ss')) : ss'.take n = ss.take n :=
   applyAction_past k bs ss n body W bs' ss' h
 
+/-- `end_report` (and the deferred WPIMULT) commutes with the handlers of non-connection
+keywords: run on the closed state and closed again = run on the open state and closed once. -/
+theorem close_commutes (k : Consts) (s t' : State) (body : List CKw) (hnc : body.all noConnKw = true)
+    (h : runBody k (closeBlock s) body = .ok t') :
+    ∃ t, runBody k s body = .ok t ∧ Sim (closeBlock t') (closeBlock t) :=
+  OpmVerif.Sched.close_commutes k s t' body hnc h
+
 /-- Applying at step n = a.length equals building the schedule from the deck with the
-substituted body written at the end of block n: same snapshots before n (`sa`), same at every
-step > n (`tail`), and at n up to the marker.  PARTIAL: assumes `endReport s1 = s1` (no well
-was auto-shut when step n was closed); see the header for the full shape. -/
-theorem apply_eq_inline_partial (k : Consts) (a : List (List CKw)) (blk : List CKw) (c : List (List CKw))
+substituted body written at the end of block n: the snapshots before n are literally the same
+(`sa`), state n agrees in everything but the marker (`Sim sn' x`), every state after n agrees
+(`All2 Sim tail tail2`) and carries an empty marker on both sides.  The only hypothesis on the
+body is the property's exception: no keyword that opens/shuts connections and no WPIMULT
+(`noConnKw`) — `end_report` may well have shut wells when step n was closed. -/
+theorem apply_eq_inline (k : Consts) (a : List (List CKw)) (blk : List CKw) (c : List (List CKw))
     (sa : List State) (s1 : State) (tail0 : List State) (body : List CKw) (W : List String)
     (bs' : List (List CKw)) (ss' : List State)
     (ha : runFrom k (init k) a = .ok sa)
     (h1 : runKws k none (createNext (sa.getLastD (init k))) blk = .ok s1)
-    (hno : endReport s1 = s1) (hp : body.all plainKw = true)
-    (happ : applyAction k (a ++ blk :: c) (sa ++ endReport s1 :: tail0) a.length body W = .ok (bs', ss')) :
-    ∃ sn' tail, ss' = sa ++ sn' :: tail ∧
-      run k (inlineAt (a ++ blk :: c) a.length (substBody (sortW (names s1.p.wells) W) body)) =
-        .ok (sa ++ setMark s1.mark sn' :: tail) := by
+    (hp : body.all plainKw = true) (hnc : body.all noConnKw = true)
+    (happ : applyAction k (a ++ blk :: c) (sa ++ closeBlock s1 :: tail0) a.length body W = .ok (bs', ss')) :
+    ∃ sn' tail x tail2, ss' = sa ++ sn' :: tail ∧
+      run k (inlineAt (a ++ blk :: c) a.length (substBody (sortW (names s1.p.wells) W) body)) = .ok (sa ++ x :: tail2) ∧
+      Sim sn' x ∧ All2 Sim tail tail2 ∧ x.mark = [] ∧ (∀ s ∈ tail, s.mark = []) ∧ (∀ s ∈ tail2, s.mark = []) := by
   have e : inlineAt (a ++ blk :: c) a.length (substBody (sortW (names s1.p.wells) W) body) =
       a ++ (blk ++ substBody (sortW (names s1.p.wells) W) body) :: c := by
     simp [inlineAt, appendAt, modify_at_length]
   rw [e]
-  exact applyAction_eq_inline k a blk c sa s1 tail0 body W bs' ss' ha h1 hno hp happ
+  have hlen : sa.length = a.length := runFrom_length ha
+  obtain ⟨sn', tail, x, tail2, hss, hrun, hsx, hall⟩ :=
+    applyAction_sim_inline k a blk c (a ++ blk :: c) sa sa s1 (closeBlock s1) tail0 body W bs' ss' ha h1 hlen
+      (Sim.refl _) (by simp) hp hnc happ
+  refine ⟨sn', tail, x, tail2, hss, hrun, hsx, hall, ?_, ?_, ?_⟩
+  · have := runFrom_marks k _ _ _ hrun x (by simp)
+    exact this
+  · -- the tail of the apply side is a `runFrom` result
+    unfold applyAction at happ
+    have hidx : (sa ++ closeBlock s1 :: tail0)[a.length]? = some (closeBlock s1) := by rw [← hlen]; simp
+    rw [hidx] at happ; simp only [] at happ
+    cases hA : applyAtState k (closeBlock s1) body W with
+    | error e => rw [hA] at happ; cases happ
+    | ok q =>
+      rw [hA] at happ; simp only [] at happ
+      cases hT : runFrom k q ((a ++ blk :: c).drop (a.length + 1)) with
+      | error e => rw [hT] at happ; cases happ
+      | ok tl =>
+        rw [hT] at happ
+        simp only [Except.ok.injEq, Prod.mk.injEq] at happ
+        have htake : (sa ++ closeBlock s1 :: tail0).take a.length = sa := by rw [← hlen]; simp
+        rw [htake, hss] at happ
+        have := List.append_cancel_left happ.2
+        simp only [List.cons.injEq] at this
+        rw [← this.2]
+        exact runFrom_marks k _ _ _ hT
+  · intro s hs
+    exact runFrom_marks k _ _ _ hrun s (by simp [hs])
 
-/-- State-level core: re-running the handlers on the closed snapshot and closing it again
-equals (up to the marker) running block n with the body appended. -/
-theorem apply_state_eq_inline_partial (k : Consts) (s0 s1 : State) (blk body : List CKw) (W : List String) (sn' : State)
-    (h1 : runKws k none s0 blk = .ok s1) (hno : endReport s1 = s1) (hp : body.all plainKw = true)
-    (ha : applyAtState k (endReport s1) body W = .ok sn') :
-    ∃ t, runKws k none s0 (blk ++ substBody (sortW (names s1.p.wells) W) body) = .ok t ∧
-         endReport t = setMark s1.mark sn' :=
-  applyAtState_eq_inline k s0 s1 blk body W sn' h1 hno hp ha
+/-- State-level core: re-running the handlers on the closed snapshot (or any state `Sim` to it)
+and closing it again equals — up to the marker — running block n with the body appended. -/
+theorem apply_state_eq_inline (k : Consts) (s0 s1 sn : State) (blk body : List CKw) (W : List String) (sn' : State)
+    (h1 : runKws k none s0 blk = .ok s1) (hsn : Sim sn (closeBlock s1))
+    (hp : body.all plainKw = true) (hnc : body.all noConnKw = true)
+    (ha : applyAtState k sn body W = .ok sn') :
+    ∃ t, runKws k none s0 (blk ++ substBody (sortW (names s1.p.wells) W) body) = .ok t ∧ Sim sn' (closeBlock t) :=
+  applyAtState_sim_inline k s0 s1 sn blk body W sn' h1 hsn hp hnc ha
 
-/-- Sequences (immutability half): whatever is applied, in any number and order, at steps ≥ n0
-leaves the snapshots before n0 as they were.  PARTIAL: the other half of the property's sequence
-clause (equality with inlining all bodies in that order, for non-decreasing steps) is validated
-against the real code only. -/
-theorem apply_sequence_partial (k : Consts) (n0 : Nat) (apps : List App) (bs : List (List CKw)) (ss : List State)
+/-- Sequences, immutability half: whatever is applied, in any number and order, at steps ≥ n0
+leaves the snapshots before n0 as they were. -/
+theorem apply_sequence_past (k : Consts) (n0 : Nat) (apps : List App) (bs : List (List CKw)) (ss : List State)
     (bs' : List (List CKw)) (ss' : List State) (hl : ss.length = bs.length)
     (hge : ∀ a ∈ apps, n0 ≤ a.1)
     (h : applyList k bs ss apps = .ok (bs', ss')) : ss'.take n0 = ss.take n0 :=
   applyList_past k n0 apps bs ss bs' ss' hl hge h
+
+/-- Sequences, equality half: applying actions one after another with non-decreasing steps
+equals inlining all of them in that order — the inlined deck is accepted and every snapshot is
+`Sim` to the one the applications produced.  `bodiesOK` = every applied body, as registered at
+its step in the deck inlined so far, is plain and has no connection keyword. -/
+theorem apply_sequence (k : Consts) (bs : List (List CKw)) (apps : List App) (bs' : List (List CKw)) (ss' : List State)
+    (hnd : nonDecr 0 apps = true) (hok : bodiesOK k bs apps = true) (h : applySeq k bs apps = .ok (bs', ss')) :
+    ∃ bsI ssI, inlineSeq k bs apps = .ok bsI ∧ run k bsI = .ok ssI ∧ All2 Sim ss' ssI :=
+  applySeq_sim_inline k bs apps bs' ss' hnd hok h
+
+/-- `Sim` states with equal markers have the same observation record (the string the
+correspondence run compares with the dump of the real `ScheduleState`). -/
+theorem sim_observation (a b : State) (h : Sim a b) (hm : a.mark = b.mark) : showState a = showState b :=
+  showState_congr a b h hm
 
 /-- '?' expands to exactly the matching wells that exist, in well order, one record each;
 other records are unchanged. -/
@@ -75,20 +138,40 @@ theorem subst_matches (order W ws : List String) (r : ROp) :
   ⟨mem_sortW order W, sortW_sublist order W, substOp_other ws r,
    fun h => ⟨substOp_q ws r h, fun w => setPat_wpat w r h⟩⟩
 
-/-! ### non-vacuity: an action that re-parents a group, applied at step 1 -/
+/-! ### non-vacuity -/
 
-def k0 : Consts := { one := "1", zero := "-", bhpProd := "b", bhpInj := "B" }
+def k0 : Consts := { one := "1", zero := "-", bhpProd := "b", bhpInj := "B", num0 := "0", siP := "sP", siLRate := "sL",
+                     siTime := "sT", bhpProdSI := "bS", bhpHistSI := "bH", bhpInjHSI := "bI" }
+
+/-- P1 gets one connection, is opened by WCONPROD, then its only connection is shut: `end_report`
+shuts the well when step 0 is closed (the old hypothesis `endReport s1 = s1` fails here).  Action
+A (registered at step 1) changes the efficiency factor and opens the matching wells. -/
 def blocks0 : List (List CKw) :=
-  [[.ops "GRUPTREE" [.gruptree "G1" "FIELD", .gruptree "G2" "G1"]],
-   [.actionx "A", .ops "GRUPTREE" [.gruptree "G2" "FIELD"], .endactio],
+  [[.ops "WELSPECS" [.welspecs "P1" "G1" (some 1) (some 1), .welspecs "P2" "G1" (some 2) (some 2)],
+    .ops "COMPDAT" [.compdat "P*" 0 0 1 1 1],
+    .ops "WELOPEN" [.welopenW "P*" .open_],
+    .ops "WPIMULT" [.wpimultG "P1" "f"]],
+   [.actionx "A", .ops "WEFAC" [.wefac "?" "e"], .ops "WELOPEN" [.welopenW "?" .open_], .ops "COMPLUMP" [.complump "?" 0 0 0 0 7], .endactio,
+    .ops "WELOPEN" [.welopenC "P1" (some 2) 0 0 0 0 0]],
    [.ops "GEFAC" []]]
-def bodyA : List CKw := [.ops "GRUPTREE" [.gruptree "G2" "FIELD"]]
+def bodyA : List CKw := [.ops "WEFAC" [.wefac "?" "e"], .ops "WELOPEN" [.welopenW "?" .open_], .ops "COMPLUMP" [.complump "?" 0 0 0 0 7]]
+def apps0 : List App := [(1, "A", ["P2", "P1"]), (2, "A", ["P1"])]
 
-example : bodyA.all plainKw = true := by decide
-example : ((applySeq k0 blocks0 [(1, "A", [])]).toOption.map fun r => (r.2.length, r.2.map fun s => (lookup s.p.groups "G2").map (·.parent))) =
-    some (3, [some "G1", some "FIELD", some "FIELD"]) := by decide +kernel
-example : ((run k0 (inlineAt blocks0 1 bodyA)).toOption.map fun ss => ss.map fun s => (lookup s.p.groups "G2").map (·.parent)) =
-    some [some "G1", some "FIELD", some "FIELD"] := by decide +kernel
+def obs (s : State) : List (String × Status × Val × Nat) :=
+  s.p.wells.map fun (n, w) => (n, statusOf s.st n, w.efac, ((connsOf s.c.m n).map (·.complnum)).sum)
+
+example : bodyA.all plainKw = true ∧ bodyA.all noConnKw = true := by decide
+example : nonDecr 0 apps0 = true := by decide
+example : bodiesOK k0 blocks0 apps0 = true := by decide +kernel
+-- end_report really shut P1 at step 1, and the deferred WPIMULT of block 0 was applied at its end
+example : ((run k0 blocks0).toOption.map fun ss => ss.map fun s => (statusOf s.st "P1", (connsOf s.c.m "P1").map (·.pimult))) =
+    some [(.open_, ["mul(1,f)"]), (.shut, ["mul(1,f)"]), (.shut, ["mul(1,f)"])] := by decide +kernel
+example : ((applySeq k0 blocks0 apps0).toOption.map fun r => r.2.map obs) =
+    some [[("P1", .open_, "1", 1), ("P2", .open_, "1", 1)], [("P1", .shut, "e", 7), ("P2", .open_, "e", 7)], [("P1", .shut, "e", 7), ("P2", .open_, "e", 7)]] := by
+  decide +kernel
+example : ((inlineSeq k0 blocks0 apps0).toOption.bind fun b => (run k0 b).toOption.map fun ss => ss.map obs) =
+    some [[("P1", .open_, "1", 1), ("P2", .open_, "1", 1)], [("P1", .shut, "e", 7), ("P2", .open_, "e", 7)], [("P1", .shut, "e", 7), ("P2", .open_, "e", 7)]] := by
+  decide +kernel
 example : sortW ["P1", "I1", "P2"] ["P2", "P1", "X"] = ["P1", "P2"] := by decide
 example : substOp ["P1", "P2"] (.welopenW "?" .shut) = [.welopenW "P1" .shut, .welopenW "P2" .shut] := by decide
 
